@@ -96,69 +96,21 @@ theorem header_field_readback (a : WArgs) (r : Row) (hr : r ∈ zygoTable) (hp :
     (headerBytes zygoTable zygoWriterSets a).getD (r.lo + i) 0 = (r.payload a (lookupSrc zygoWriterSets r.name)).getD i 0 :=
   C14L.header_field_readback zygoTable zygoWriterSets a header_sizes_match header_fields_disjoint r hr hp i hi
 
-theorem length_headerBytes (a : WArgs) : (headerBytes zygoTable zygoWriterSets a).length = headerLen := by
-  simp [headerBytes, slice]
-
-/-- … and so does the same field of the complete file -/
-theorem file_field_readback (a : WArgs) (vals : List Float) (r : Row) (hr : r ∈ zygoTable) (hp : r.isPad = false)
-    (i : Nat) (hi : i < r.size) :
-    (zygoFile zygoTable zygoWriterSets a vals).getD (r.lo + i) 0 = (r.payload a (lookupSrc zygoWriterSets r.name)).getD i 0 := by
-  have hl := length_headerBytes a
-  have hwf := wf_row zygoTable header_sizes_match r hr
-  simp only [zygoFile]
-  rw [getD_append_l _ _ _ (by rw [hl]; omega)]
-  exact header_field_readback a r hr hp i hi
-
-private theorem rb2 (f : List Nat) (lo v : Nat) (hv : v < 65536)
-    (h : ∀ i, i < 2 → f.getD (lo + i) 0 = (packStr 2 (encBE 2 v)).getD i 0) : hdrU16 f lo = v := by
-  have h0 := h 0 (by decide); have h1 := h 1 (by decide)
-  simp only [Nat.add_zero] at h0
-  simp only [hdrU16, h0, h1]
-  simp [packStr, encBE, encLE, decBE, decLE]
-  omega
-
-private theorem rb4 (f : List Nat) (lo v : Nat) (hv : v < 4294967296)
-    (h : ∀ i, i < 4 → f.getD (lo + i) 0 = (packStr 4 (encBE 4 v)).getD i 0) : hdrU32 f lo = v := by
-  have h0 := h 0 (by decide); have h1 := h 1 (by decide); have h2 := h 2 (by decide); have h3 := h 3 (by decide)
-  simp only [Nat.add_zero] at h0
-  simp only [hdrU32, h0, h1, h2, h3]
-  simp [packStr, encBE, encLE, decBE, decLE]
-  omega
-
-theorem f32Bits_lt (x : Float) : f32Bits x < 4294967296 := by
-  simp only [f32Bits]; exact UInt32.toNat_lt _
-
 /-- the row of the generated table called `name` -/
 def rowOf (name : String) : Row :=
   (zygoTable.find? (fun r => r.name == name)).getD ⟨"", .native, 0, .pad, 0, 0, .int 0⟩
-
-private theorem field_u16 (name : String) (lo v : Nat) (a : WArgs) (vals : List Float) (hv : v < 65536)
-    (hm : rowOf name ∈ zygoTable) (hp : (rowOf name).isPad = false) (hlo : (rowOf name).lo = lo) (hs : (rowOf name).size = 2)
-    (hraw : (lookupSrc zygoWriterSets (rowOf name).name).raw a (rowOf name) = encBE 2 v) :
-    hdrU16 (zygoFile zygoTable zygoWriterSets a vals) lo = v := by
-  refine rb2 _ _ _ hv (fun i hi => ?_)
-  have k := file_field_readback a vals (rowOf name) hm hp i (by omega)
-  rw [← hlo, k, Row.payload, hs, hraw]
-
-private theorem field_u32 (name : String) (lo v : Nat) (a : WArgs) (vals : List Float) (hv : v < 4294967296)
-    (hm : rowOf name ∈ zygoTable) (hp : (rowOf name).isPad = false) (hlo : (rowOf name).lo = lo) (hs : (rowOf name).size = 4)
-    (hraw : (lookupSrc zygoWriterSets (rowOf name).name).raw a (rowOf name) = encBE 4 v) :
-    hdrU32 (zygoFile zygoTable zygoWriterSets a vals) lo = v := by
-  refine rb4 _ _ _ hv (fun i hi => ?_)
-  have k := file_field_readback a vals (rowOf name) hm hp i (by omega)
-  rw [← hlo, k, Row.payload, hs, hraw]
 
 /-- the shape the reader decodes from a written file is the shape of the map: rows from `cn_height`, columns from `cn_width` -/
 theorem zygo_shape_roundtrip (a : WArgs) (vals : List Float) (hw : a.w < 65536) (hh : a.h < 65536) :
     hdrU16 (zygoFile zygoTable zygoWriterSets a vals) offHeight = a.h ∧
     hdrU16 (zygoFile zygoTable zygoWriterSets a vals) offWidth = a.w := by
   constructor
-  · refine field_u16 "cn_height" _ _ a vals hh (by decide +kernel) (by decide +kernel) (by decide +kernel) (by decide +kernel) ?_
+  · refine field_u16 zygoTable zygoWriterSets header_sizes_match header_fields_disjoint (rowOf "cn_height") _ _ a vals hh (by decide +kernel) (by decide +kernel) (by decide +kernel) (by decide +kernel) ?_
     rw [show lookupSrc zygoWriterSets (rowOf "cn_height").name = .shape 0 from by decide +kernel]
     simp only [Src.raw, Row.rawDflt, show (rowOf "cn_height").code = .u16 from by decide +kernel,
       show (rowOf "cn_height").endian = .big from by decide +kernel, packNum]
     try rfl
-  · refine field_u16 "cn_width" _ _ a vals hw (by decide +kernel) (by decide +kernel) (by decide +kernel) (by decide +kernel) ?_
+  · refine field_u16 zygoTable zygoWriterSets header_sizes_match header_fields_disjoint (rowOf "cn_width") _ _ a vals hw (by decide +kernel) (by decide +kernel) (by decide +kernel) (by decide +kernel) ?_
     rw [show lookupSrc zygoWriterSets (rowOf "cn_width").name = .shape 1 from by decide +kernel]
     simp only [Src.raw, Row.rawDflt, show (rowOf "cn_width").code = .u16 from by decide +kernel,
       show (rowOf "cn_width").endian = .big from by decide +kernel, packNum]
@@ -173,23 +125,23 @@ theorem zygo_scaling_fields_readback (a : WArgs) (vals : List Float) :
     hdrU32 (zygoFile zygoTable zygoWriterSets a vals) offObliq = f32Bits (Float.ofBits 0x3FF0000000000000) ∧
     hdrU16 (zygoFile zygoTable zygoWriterSets a vals) offPhaseRes = 1 := by
   refine ⟨?_, ?_, ?_, ?_, ?_⟩
-  · refine field_u32 "lateral_resolution" _ _ a vals (f32Bits_lt _) (by decide +kernel) (by decide +kernel) (by decide +kernel) (by decide +kernel) ?_
+  · refine field_u32 zygoTable zygoWriterSets header_sizes_match header_fields_disjoint (rowOf "lateral_resolution") _ _ a vals (f32Bits_lt _) (by decide +kernel) (by decide +kernel) (by decide +kernel) (by decide +kernel) ?_
     rw [show lookupSrc zygoWriterSets (rowOf "lateral_resolution").name = .dxMmToM from by decide +kernel]
     simp only [Src.raw, show (rowOf "lateral_resolution").endian = .big from by decide +kernel, packNum]
-  · refine field_u32 "wavelength" _ _ a vals (f32Bits_lt _) (by decide +kernel) (by decide +kernel) (by decide +kernel) (by decide +kernel) ?_
+  · refine field_u32 zygoTable zygoWriterSets header_sizes_match header_fields_disjoint (rowOf "wavelength") _ _ a vals (f32Bits_lt _) (by decide +kernel) (by decide +kernel) (by decide +kernel) (by decide +kernel) ?_
     rw [show lookupSrc zygoWriterSets (rowOf "wavelength").name = .wvlUmToM from by decide +kernel]
     simp only [Src.raw, show (rowOf "wavelength").endian = .big from by decide +kernel, packNum]
-  · refine field_u32 "scale_factor" _ _ a vals (f32Bits_lt _) (by decide +kernel) (by decide +kernel) (by decide +kernel) (by decide +kernel) ?_
+  · refine field_u32 zygoTable zygoWriterSets header_sizes_match header_fields_disjoint (rowOf "scale_factor") _ _ a vals (f32Bits_lt _) (by decide +kernel) (by decide +kernel) (by decide +kernel) (by decide +kernel) ?_
     rw [show lookupSrc zygoWriterSets (rowOf "scale_factor").name = .constFlt 0x3FF0000000000000 from by decide +kernel]
     simp only [Src.raw, Row.rawDflt, show (rowOf "scale_factor").code = .f32 from by decide +kernel,
       show (rowOf "scale_factor").endian = .big from by decide +kernel, packNum]
     try rfl
-  · refine field_u32 "obliquity_factor" _ _ a vals (f32Bits_lt _) (by decide +kernel) (by decide +kernel) (by decide +kernel) (by decide +kernel) ?_
+  · refine field_u32 zygoTable zygoWriterSets header_sizes_match header_fields_disjoint (rowOf "obliquity_factor") _ _ a vals (f32Bits_lt _) (by decide +kernel) (by decide +kernel) (by decide +kernel) (by decide +kernel) ?_
     rw [show lookupSrc zygoWriterSets (rowOf "obliquity_factor").name = .constFlt 0x3FF0000000000000 from by decide +kernel]
     simp only [Src.raw, Row.rawDflt, show (rowOf "obliquity_factor").code = .f32 from by decide +kernel,
       show (rowOf "obliquity_factor").endian = .big from by decide +kernel, packNum]
     try rfl
-  · refine field_u16 "phase_res" _ _ a vals (by decide) (by decide +kernel) (by decide +kernel) (by decide +kernel) (by decide +kernel) ?_
+  · refine field_u16 zygoTable zygoWriterSets header_sizes_match header_fields_disjoint (rowOf "phase_res") _ _ a vals (by decide) (by decide +kernel) (by decide +kernel) (by decide +kernel) (by decide +kernel) ?_
     rw [show lookupSrc zygoWriterSets (rowOf "phase_res").name = .constInt 1 from by decide +kernel]
     simp only [Src.raw, Row.rawDflt, show (rowOf "phase_res").code = .u16 from by decide +kernel,
       show (rowOf "phase_res").endian = .big from by decide +kernel, packNum]
